@@ -445,7 +445,35 @@ pub fn check_error_paths(c: &ErrorPathCase, info: &mut CaseInfo) -> Result<(), S
 	results.push(("KeyPair::from_pem_and_sign_algo", no_panic(|| rcgen::KeyPair::from_pem_and_sign_algo(&t, alg)).ok().and_then(|r| r.err())));
 	results.push(("CertificateParams::from_ca_cert_pem", no_panic(|| rcgen::CertificateParams::from_ca_cert_pem(&t)).ok().and_then(|r| r.err())));
 	results.push(("CertificateSigningRequestParams::from_pem", no_panic(|| rcgen::CertificateSigningRequestParams::from_pem(&t)).ok().and_then(|r| r.err())));
-	results.push(("SubjectPublicKeyInfo::from_pem", no_panic(|| rcgen::SubjectPublicKeyInfo::from_pem(&t)).ok().and_then(|r| r.err())));
+	// a parser that takes the private-key text for something public hands back an object: what that
+	// object shows (and what is issued from it) is public output
+	match no_panic(|| rcgen::SubjectPublicKeyInfo::from_pem(&t)) {
+		Ok(Ok(spki)) => {
+			info.class("key-text-accepted-as-public-key");
+			use rcgen::PublicKeyData;
+			let mut outs: Vec<(&str, Vec<u8>)> = vec![
+				("Debug of a SubjectPublicKeyInfo parsed from the private-key text", format!("{spki:?}").into_bytes()),
+				("der_bytes() of a SubjectPublicKeyInfo parsed from the private-key text", spki.der_bytes().to_vec()),
+			];
+			let ik = keys::make_key(&KeySpec { alg: KeyAlg::Ed25519, idx: 1, rsa_hash: RsaHash::Sha256, remote: !cfg!(feature = "crypto") })?;
+			let mut ispec = CertSpec::minimal();
+			ispec.is_ca = IsCaSpec::CaUnconstrained;
+			if let Ok(ic) = crate::mk::cert_params(&ispec)?.self_signed(&ik) {
+				if let Ok(Ok(c)) = no_panic(|| crate::mk::cert_params(&CertSpec::minimal()).unwrap().signed_by(&spki, &ic, &ik)) {
+					outs.push(("a certificate issued for a SubjectPublicKeyInfo parsed from the private-key text", c.der().to_vec()));
+				}
+			}
+			scan_all(&sc, &outs)?;
+			results.push(("SubjectPublicKeyInfo::from_pem", None));
+		},
+		r => results.push(("SubjectPublicKeyInfo::from_pem", r.ok().and_then(|r| r.err()))),
+	}
+	if let Ok(Ok(p)) = no_panic(|| rcgen::CertificateParams::from_ca_cert_pem(&t)) {
+		scan_all(&sc, &[("Debug of CertificateParams imported from the private-key text", format!("{p:?}").into_bytes())])?;
+	}
+	if let Ok(Ok(p)) = no_panic(|| rcgen::CertificateSigningRequestParams::from_pem(&t)) {
+		scan_all(&sc, &[("Debug of CertificateSigningRequestParams parsed from the private-key text", format!("{p:?}").into_bytes())])?;
+	}
 	// bundles as they occur on disk: the key text before / after a certificate or a request
 	{
 		let ck = keys::make_key(&KeySpec { alg: KeyAlg::Ed25519, idx: 1, rsa_hash: RsaHash::Sha256, remote: !cfg!(feature = "crypto") })?;
